@@ -113,11 +113,31 @@ bool prop(Tape &t, Report &R) {
   Frame start = snap(ref);
   int K = 0;
   std::string cbErr;
+  // At one tape-chosen invocation the callback also snapshots the circuit (a
+  // copy) and runs a placement call on the copy, as a user doing a trial
+  // legalization would: once that call has ended the copy accepts modifications.
+  int copyAt = t.choose(0, 7);          // decided last: older tapes decode 0 here
+  int copyEnds = t.choose(0, 2);        // 0 returns / infeasible, 1 throwing callback, 2 rejected parameters
+  bool copied = false;
   PlacementCallback observe = [&](PlacementStep) {
     ++K;
     if (cbErr.empty()) {
       std::string e = trySetters(ref, true);
       if (!e.empty()) cbErr = e + " (callback " + std::to_string(K) + " of " + stageName(stage) + ")";
+    }
+    if (cbErr.empty() && K - 1 == copyAt) {
+      copied = true;
+      Circuit b = ref;
+      ColoquinteParameters pb(params);
+      pb.legalization.orderingY = copyEnds == 2 ? 5.0 : 0.0;
+      PlacementCallback thrower = [](PlacementStep) { throw HarnessFault(); };
+      StageResult rb = copyEnds == 1 ? runStage(b, kLegalize, pb, thrower) : runStage(b, kLegalize, pb);
+      if (rb.otherException) {
+        cbErr = "non-std exception from legalize on a copy";
+        return;
+      }
+      std::string e = afterCallChecks(b, "placement call on a copy taken inside a callback has ended");
+      if (!e.empty()) cbErr = e;
     }
   };
   StageResult rr = runStage(ref, stage, params, observe);
@@ -170,6 +190,7 @@ bool prop(Tape &t, Report &R) {
       return R.fail("legalize after a callback fault gives another result than on a fresh circuit " + s.json());
   }
   R.classify("fault-points", faults);
+  if (copied) R.classify("placement-call-on-a-copy-taken-inside-a-callback");
   bool nt = (K >= 3) || (!rr.returned && stage == kLegalize && s.nbMovable() >= 3);
   if (nt)
     R.nontrivial(s.hash() ^ Hasher().add(stage).add(rejected).h, [&] {
